@@ -58,9 +58,12 @@ pub enum RPath {
     DisplayPrec,
     DisplayPrec0,
     DisplayPrec10,
+    DisplayWidth,
+    DisplayWidthPrec,
     Debug,
     DebugAlt,
     DebugPrec,
+    DebugWidth,
     Eq,
     IntoVec4,
     Xyz,
@@ -76,8 +79,8 @@ const ALL_WPATHS: &[WPath] = &[
 ];
 const ALL_RPATHS: &[RPath] = &[
     RPath::Fields, RPath::Index, RPath::ToArray, RPath::AsRef, RPath::IntoArray, RPath::IntoTuple, RPath::WriteToSlice, RPath::Display,
-    RPath::DisplayPrec, RPath::DisplayPrec0, RPath::DisplayPrec10, RPath::Debug, RPath::DebugAlt, RPath::DebugPrec, RPath::Eq, RPath::IntoVec4,
-    RPath::Xyz, RPath::Test, RPath::Bitmask, RPath::IntoU32Arr,
+    RPath::DisplayPrec, RPath::DisplayPrec0, RPath::DisplayPrec10, RPath::DisplayWidth, RPath::DisplayWidthPrec, RPath::Debug, RPath::DebugAlt,
+    RPath::DebugPrec, RPath::DebugWidth, RPath::Eq, RPath::IntoVec4, RPath::Xyz, RPath::Test, RPath::Bitmask, RPath::IntoU32Arr,
 ];
 
 fn wpath_from(s: &str) -> WPath {
@@ -175,6 +178,11 @@ macro_rules! common_reads {
             RPath::DisplayPrec => ReadOut::Text(format!("{:.3}", $self)),
             RPath::DisplayPrec0 => ReadOut::Text(format!("{:.0}", $self)),
             RPath::DisplayPrec10 => ReadOut::Text(format!("{:.10}", $self)),
+            // a field width may be honoured or ignored (glam ignores it); either way every lane must be printed, so the
+            // whitespace-separated tokens must be the lanes' own formatting
+            RPath::DisplayWidth => ReadOut::Text(format!("{:9}", $self)),
+            RPath::DisplayWidthPrec => ReadOut::Text(format!("{:>14.3}", $self)),
+            RPath::DebugWidth => ReadOut::Text(format!("{:11?}", $self)),
             RPath::Debug => ReadOut::Text(format!("{:?}", $self)),
             RPath::DebugAlt => ReadOut::Text(format!("{:#?}", $self)),
             RPath::DebugPrec => ReadOut::Text(format!("{:.2?}", $self)),
@@ -193,8 +201,8 @@ macro_rules! impl_vec_paths {
             }
             fn rpaths() -> &'static [RPath] {
                 &[RPath::Fields, RPath::Index, RPath::ToArray, RPath::AsRef, RPath::IntoArray, RPath::IntoTuple, RPath::WriteToSlice,
-                  RPath::Display, RPath::DisplayPrec, RPath::DisplayPrec0, RPath::DisplayPrec10, RPath::Debug, RPath::DebugAlt,
-                  RPath::DebugPrec, RPath::Eq]
+                  RPath::Display, RPath::DisplayPrec, RPath::DisplayPrec0, RPath::DisplayPrec10, RPath::DisplayWidth, RPath::DisplayWidthPrec,
+                  RPath::Debug, RPath::DebugAlt, RPath::DebugPrec, RPath::DebugWidth, RPath::Eq]
             }
             fn write(&mut self, p: WPath, lane: usize, v: &[$E], off: usize) {
                 match p {
@@ -320,8 +328,8 @@ macro_rules! impl_quat_paths {
             }
             fn rpaths() -> &'static [RPath] {
                 &[RPath::Fields, RPath::ToArray, RPath::AsRef, RPath::IntoArray, RPath::IntoTuple, RPath::IntoVec4, RPath::Xyz,
-                  RPath::WriteToSlice, RPath::Display, RPath::DisplayPrec, RPath::DisplayPrec0, RPath::DisplayPrec10, RPath::Debug,
-                  RPath::DebugAlt, RPath::DebugPrec, RPath::Eq]
+                  RPath::WriteToSlice, RPath::Display, RPath::DisplayPrec, RPath::DisplayPrec0, RPath::DisplayPrec10, RPath::DisplayWidth,
+                  RPath::DisplayWidthPrec, RPath::Debug, RPath::DebugAlt, RPath::DebugPrec, RPath::DebugWidth, RPath::Eq]
             }
             fn write(&mut self, p: WPath, lane: usize, v: &[$E], off: usize) {
                 match p {
@@ -403,8 +411,10 @@ macro_rules! impl_mask_paths {
                         if a.iter().any(|e| *e != 0 && *e != u32::MAX) { ReadOut::Bool(false) } else { ReadOut::Lanes(a.iter().map(|e| *e == u32::MAX).collect()) }
                     }
                     RPath::Display => ReadOut::Text(format!("{}", self)),
+                    RPath::DisplayWidth => ReadOut::Text(format!("{:9}", self)),
                     RPath::Debug => ReadOut::Text(format!("{:?}", self)),
                     RPath::DebugAlt => ReadOut::Text(format!("{:#?}", self)),
+                    RPath::DebugWidth => ReadOut::Text(format!("{:11?}", self)),
                     RPath::Eq => {
                         let a: [bool; $N] = (*self).into();
                         let same = $T::from_array(a);
@@ -425,8 +435,8 @@ macro_rules! impl_mask_paths {
     };
     (@w y) => { &[WPath::Field, WPath::Set, WPath::New, WPath::Splat, WPath::FromArray, WPath::FromArrTrait, WPath::FreeFn, WPath::Const, WPath::Default, WPath::Copy] };
     (@w n) => { &[WPath::Set, WPath::New, WPath::Splat, WPath::FromArray, WPath::FromArrTrait, WPath::FreeFn, WPath::Const, WPath::Default, WPath::Copy] };
-    (@r y) => { &[RPath::Fields, RPath::Test, RPath::Bitmask, RPath::IntoArray, RPath::IntoU32Arr, RPath::Display, RPath::Debug, RPath::DebugAlt, RPath::Eq] };
-    (@r n) => { &[RPath::Test, RPath::Bitmask, RPath::IntoArray, RPath::IntoU32Arr, RPath::Display, RPath::Debug, RPath::DebugAlt, RPath::Eq] };
+    (@r y) => { &[RPath::Fields, RPath::Test, RPath::Bitmask, RPath::IntoArray, RPath::IntoU32Arr, RPath::Display, RPath::DisplayWidth, RPath::Debug, RPath::DebugAlt, RPath::DebugWidth, RPath::Eq] };
+    (@r n) => { &[RPath::Test, RPath::Bitmask, RPath::IntoArray, RPath::IntoU32Arr, RPath::Display, RPath::DisplayWidth, RPath::Debug, RPath::DebugAlt, RPath::DebugWidth, RPath::Eq] };
     (@setf $s:ident, $l:expr, $v:expr, $N:tt, y) => { lane_set!($s, $l, $v, $N) };
     (@setf $s:ident, $l:expr, $v:expr, $N:tt, n) => { unreachable!() };
     (@getf $s:ident, $N:tt, y) => { ReadOut::Lanes((0..$N).map(|l| lane_get!($s, l, $N)).collect()) };
@@ -664,8 +674,8 @@ fn fmt_elem<E: Scalar>(bits: u64, how: RPath) -> String {
         ($t:ty) => {{
             let v = <$t as Scalar>::from_bits64(bits);
             match how {
-                RPath::Display => format!("{}", v),
-                RPath::DisplayPrec => format!("{:.3}", v),
+                RPath::Display | RPath::DisplayWidth => format!("{}", v),
+                RPath::DisplayPrec | RPath::DisplayWidthPrec => format!("{:.3}", v),
                 RPath::DisplayPrec0 => format!("{:.0}", v),
                 RPath::DisplayPrec10 => format!("{:.10}", v),
                 RPath::DebugPrec => format!("{:.2?}", v),
@@ -708,7 +718,7 @@ fn check_reads<T: Paths>(obj: &T, model: &[u64], last_write: &str, canary: u64) 
     let aux: Vec<T::E> = vec![T::E::from_bits64(canary)];
     let no_fmt = NO_FMT.load(std::sync::atomic::Ordering::Relaxed);
     for &rp in T::rpaths() {
-        if no_fmt && matches!(rp, RPath::Display | RPath::DisplayPrec | RPath::DisplayPrec0 | RPath::DisplayPrec10 | RPath::Debug | RPath::DebugAlt | RPath::DebugPrec) {
+        if no_fmt && matches!(rp, RPath::Display | RPath::DisplayPrec | RPath::DisplayPrec0 | RPath::DisplayPrec10 | RPath::DisplayWidth | RPath::DisplayWidthPrec | RPath::Debug | RPath::DebugAlt | RPath::DebugPrec | RPath::DebugWidth) {
             continue;
         }
         let out = match util::catch(|| obj.read(rp, &aux)) {
@@ -748,7 +758,7 @@ fn check_reads<T: Paths>(obj: &T, model: &[u64], last_write: &str, canary: u64) 
                 }
             }
             ReadOut::Text(s) => {
-                let is_debug = matches!(rp, RPath::Debug | RPath::DebugAlt | RPath::DebugPrec);
+                let is_debug = matches!(rp, RPath::Debug | RPath::DebugAlt | RPath::DebugPrec | RPath::DebugWidth);
                 let got = tokens(&s, is_debug);
                 let want: Vec<String> = model.iter().map(|b| fmt_elem::<T::E>(*b, rp)).collect();
                 let ok = if T::E::KIND == Elem::Bool && is_debug {
